@@ -48,4 +48,8 @@ theorem facts_once_sites_present : Spec.onceSitesPresent = true := by decide +ke
 /-- Regenerated fact: no method on the Parse/Render path writes through a long-lived receiver outside a Once. -/
 theorem facts_no_path_writes : Spec.noPathWrites = true := by decide +kernel
 
+/-- Regenerated fact: the only sync / sync-atomic objects in goldmark's long-lived structs and package variables
+    are the three `sync.Once` guards (no cache behind a mutex, `sync.Map`, `sync.Pool` or atomic pointer). -/
+theorem facts_only_once_guards : Spec.onlyOnceGuards = true := by decide +kernel
+
 end GM.Props.C07
